@@ -7,7 +7,7 @@ func init() {
 		Harnesses: []*HarnessSpec{
 			{Name: "H_C20_f32", Tier: "quick", What: "float32 quantiser: bit-exact round trip, fresh slices, input untouched; length<=3, all float32", Covers: []string{"ran"}},
 			{Name: "H_C20_f16", Tier: "quick", What: "float16: real SSA of x448/float16 executed symbolically; for every non-NaN float32 v: Quantize bits == SMT (to_fp 5 11) RNE v, Dequantize == its exact float32 value, relative error <= 2^-11 in the normal range", Covers: []string{"ran", "normal-range"}},
-			{Name: "H_C20_int8", Tier: "quick", What: "int8: untrained => error; for absMax in {2^-10, 0.1, 1, 3, 127, 1000, 2^20} (set by Train, by SetAbsMax, or Train then SetAbsMax) and every float32 v with |v|<=absMax: |deq-v| <= absMax/254*(1+2^-12) (T2)", Covers: []string{"ran"}},
+			{Name: "H_C20_int8", Tier: "quick", What: "int8: untrained => error; for absMax in {1e-37, 2^-10, 0.1, 1, 3, 127, 1000, 2^20} (set by Train, by SetAbsMax, or Train then SetAbsMax) and every float32 v with |v|<=absMax: |deq-v| <= absMax/254*(1+2^-12) (T2)", Covers: []string{"ran"}},
 			{Name: "H_C20_int8_train", Tier: "quick", What: "Int8Quantizer.Train computes the maximum absolute value (3 symbolic values)", Covers: []string{"ran"}},
 			{Name: "H_C20_nearest", Tier: "quick", What: "FindNearestCentroidIndex (the assignment kernel): 1..3 centroids, d<=2, 3 metrics, all float32 with non-NaN distances: index in range, no strictly nearer centroid (which of several equidistant centroids is returned is not constrained)", Covers: []string{"ran"}},
 			{Name: "H_C20_kmeans", Tier: "quick", What: "KMeans: n<=2 vectors, d=1, 3 metrics, k any int, maxIter any int (effective iterations <=2): min(k,n) centroids, nil for k<=0 / n=0, assignments in range, nearest when converged, input untouched, second call bit-identical", Covers: []string{"ran", "nil", "converged"}},
